@@ -14,7 +14,9 @@ def xhex (s : String) : Option Bytes :=
   | 'x' :: rest => bytesOfHexAux rest []
   | _ => none
 
-def codecDec (name : String) : Option Dec := (Codec.ofName name).map fun c => decodeText c
+/-- "default" = DRX_ENCODING unset = util.get_encoding()'s default 'mac_roman' -/
+def codecDec (name : String) : Option Dec :=
+  (if name = "default" then some Codec.macRoman else Codec.ofName name).map fun c => decodeText c
 
 def keyEntry (s : String) : Option KeyEntry :=
   match s.splitOn ":" with
